@@ -26,7 +26,7 @@ def settle(prop, viol, describe, keysf=None):
             new.append(p)
     for k, n in hit.items():
         lines.append("KNOWN-FINDING: property=%s %s [key %s; %d case(s) this run]" % (prop, known[k].get("what", k), k, n))
-    return {"known_hit": sum(hit.values()), "known_lines": lines, "new": new}
+    return {"known_hit": sum(hit.values()), "known_lines": lines, "new": new, "known_keys": dict(hit)}
 
 
 # --------------------------------------------------------------------------------------------
